@@ -473,18 +473,14 @@ func judge(h *Header, evs []Ev) *judgement {
 		if lastInfoRet == nil || (lastApplyRet != nil && lastInfoRet.N < lastApplyRet.N) {
 			j.add("sync-succeeded-without-app-info", "Sync returned success without asking the app for its hash/height/version after the last chunk", syncRet.N, nil)
 		} else {
-			var bad []string
-			if lastInfoRet.H != S {
-				bad = append(bad, fmt.Sprintf("height %d != %d", lastInfoRet.H, S))
+			if lastInfoRet.Ver != t.AppVer {
+				j.add("bootstrapped-with-app-version-mismatch", fmt.Sprintf("Sync returned a state and commit (the node would bootstrap) although the restored app reported app version %d; the light-verified version for height %d is %d", lastInfoRet.Ver, S+1, t.AppVer), syncRet.N, lastInfoRet)
 			}
 			if lastInfoRet.B != t.AppHash {
-				bad = append(bad, fmt.Sprintf("app hash %s != %s", lastInfoRet.B, t.AppHash))
+				j.add("bootstrapped-with-app-hash-mismatch", fmt.Sprintf("Sync returned a state and commit (the node would bootstrap) although the restored app reported app hash %q; the light-verified app hash after height %d is %s", lastInfoRet.B, S, t.AppHash), syncRet.N, lastInfoRet)
 			}
-			if lastInfoRet.Ver != t.AppVer {
-				bad = append(bad, fmt.Sprintf("app version %d != %d", lastInfoRet.Ver, t.AppVer))
-			}
-			if len(bad) > 0 {
-				j.add("sync-succeeded-despite-app-mismatch", "Sync returned success although the restored app reported "+strings.Join(bad, "; "), syncRet.N, lastInfoRet)
+			if lastInfoRet.H != S {
+				j.add("bootstrapped-with-app-height-mismatch", fmt.Sprintf("Sync returned a state and commit (the node would bootstrap) although the restored app reported last block height %d; the snapshot height is %d", lastInfoRet.H, S), syncRet.N, lastInfoRet)
 			}
 		}
 		if boot != nil {
@@ -527,6 +523,41 @@ func judge(h *Header, evs []Ev) *judgement {
 
 	if h.Scenario.Liveness {
 		j.liveness(h, evs, arr, peerOf, syncRet, cut)
+	}
+	if is := h.Scenario.App.Info; is != nil && lastInfoRet != nil && curOffer != nil {
+		// verify family: what the app reported against the verified values, and what Sync did with it
+		t := h.Truth[curOffer.H]
+		var mism []string
+		if lastInfoRet.Ver != t.AppVer {
+			mism = append(mism, "version")
+		}
+		if lastInfoRet.B != t.AppHash {
+			mism = append(mism, "hash")
+		}
+		if lastInfoRet.H != curOffer.H {
+			mism = append(mism, "height")
+		}
+		vclass := fmt.Sprint(t.AppVer)
+		if t.AppVer > 1000 {
+			vclass = "large"
+		}
+		switch {
+		case syncRet == nil:
+			j.counts["verify: scenario cut before Sync returned"]++
+		case len(mism) == 0 && syncRet.OK:
+			j.counts["verify: all three equal -> bootstrapped (verified version "+vclass+")"]++
+		case len(mism) == 0:
+			j.add("sync-refused-although-app-reports-verified-values", fmt.Sprintf("the restored app reported exactly the verified hash, height %d and version %d, honest peers and provider, yet Sync failed: %s", curOffer.H, t.AppVer, syncRet.M), syncRet.N, lastInfoRet)
+		case !syncRet.OK:
+			j.counts["verify: refused, app reported other "+strings.Join(mism, "+")]++
+			j.counts["verify: refused mismatch with verified version "+vclass]++
+			if t.AppVer == 0 && lastInfoRet.Ver != 0 {
+				j.counts["verify: refused, verified version 0 and app reports non-zero"]++
+			}
+			if t.AppVer != 0 && lastInfoRet.Ver == 0 {
+				j.counts["verify: refused, verified version non-zero and app reports 0"]++
+			}
+		}
 	}
 
 	// ---------- chunk queue model ----------
